@@ -330,7 +330,13 @@ func (p *queryPlan) processClause(ctx context.Context, cls *semantic.GraphClause
 		if err != nil {
 			return false, err
 		}
-		b, tbl, err := simpleExist(ctx, p.grfs, cls, t, p.tracer)
+		gs := p.grfs
+		if outsideTimeBounds(cls.P, lo) {
+			// The time anchor of the clause lies outside the time bounds of the
+			// statement: the triple is not part of the data the query sees.
+			gs = nil
+		}
+		b, tbl, err := simpleExist(ctx, gs, cls, t, p.tracer)
 		if err != nil {
 			return false, err
 		}
